@@ -217,6 +217,23 @@ func (e *Exec) callFn(fr *frame, st *State, c *ssa.CallCommon, fn *ssa.Function,
 		return &Tuple{}, true
 	case "vcSameMap":
 		return tEq(e.asTerm(st, args[0], sig.Params().At(0).Type()), e.asTerm(st, args[1], sig.Params().At(1).Type())), true
+	case "vcTokBytes":
+		// a function of the bytes the slice holds now (array contents, offset, length)
+		sl := e.asTerm(st, args[0], c.Args[0].Type())
+		name, srt := e.ti.elemComp(types.Typ[types.Uint8], nil)
+		as := arraySort(SInt, srt)
+		H := e.heapComp(st, name, SInt, arraySort(SInt, as))
+		e.smt.declareFun("tok.bytes", []string{as, SInt, SInt}, SInt)
+		return app(SInt, "tok.bytes", tSelect(H, slArr(sl), as), slOff(sl), slLen(sl)), true
+	case "vcTokStr":
+		e.smt.declareFun("tok.str", []string{SStr}, SInt)
+		return app(SInt, "tok.str", e.asTerm(st, args[0], c.Args[0].Type())), true
+	case "vcTokCat":
+		e.tokAxioms()
+		return app(SInt, "tok.cat", e.asTerm(st, args[0], c.Args[0].Type()), e.asTerm(st, args[1], c.Args[1].Type())), true
+	case "vcTokEmpty":
+		e.tokAxioms()
+		return Term{"tok.empty", SInt}, true
 	case "vcSameSlice":
 		return tEq(e.asTerm(st, args[0], sig.Params().At(0).Type()), e.asTerm(st, args[1], sig.Params().At(1).Type())), true
 	case "vcElemsOf":
@@ -766,7 +783,7 @@ func (e *Exec) modularCall(st *State, ct *Contract, sig *types.Signature, args [
 		res = e.freshOf(st, "r."+smtIdent(shortName(calleeName)), sig.Results())
 	}
 	rvals := unwrapResults(res, sig.Results().Len())
-	if g := ct.Attrs["result-ghost"]; g != "" && len(rvals) == 1 && len(targs) > 0 {
+	if g := ct.Attrs["result-ghost"]; g != "" && len(rvals) >= 1 && len(targs) > 0 {
 		// the (ghost) record of the most recent result, attached to the receiver
 		rt, ok1 := rvals[0].(Term)
 		recv, ok2 := targs[0].(Term)
@@ -776,6 +793,7 @@ func (e *Exec) modularCall(st *State, ct *Contract, sig *types.Signature, args [
 			e.setHeap(st, "G."+g, tStore(arr, recv, rt))
 		}
 	}
+	_ = 0
 	if g := ct.Attrs["log-count"]; g != "" && len(targs) > 0 {
 		// ghost call log attached to the receiver: a counter and (optionally) the sequence of first arguments
 		if recv, ok := targs[0].(Term); ok {
@@ -812,6 +830,18 @@ func (e *Exec) modularCall(st *State, ct *Contract, sig *types.Signature, args [
 			continue
 		}
 		e.assume(st, g)
+	}
+	if g := ct.Attrs["result-content"]; g != "" && len(rvals) >= 1 && len(targs) > 0 {
+		// (ghost) what the returned reader yields, as of now, attached to the receiver
+		rt, ok1 := rvals[0].(Term)
+		recv, ok2 := targs[0].(Term)
+		if ok1 && ok2 {
+			e.ghostSorts[g] = SInt
+			e.ghostSorts["ghost_rcontent"] = SInt
+			rc := e.heapComp(st, "G.ghost_rcontent", SInt, arraySort(SInt, SInt))
+			arr := e.heapComp(st, "G."+g, SInt, arraySort(SInt, SInt))
+			e.setHeap(st, "G."+g, tStore(arr, recv, tSelect(rc, rt, SInt)))
+		}
 	}
 	if ct.Attrs["fs-mutating"] != "" && e.topCt != nil && e.spec == 0 {
 		// a crash may happen right after this file-system mutation: the crash invariant of the function
@@ -1252,4 +1282,10 @@ func (e *Exec) fnAcquires(fn *ssa.Function, depth int) bool {
 	scan(fn)
 	e.acqCache[fn] = res
 	return res
+}
+
+func (e *Exec) tokAxioms() {
+	e.smt.declareFun("tok.cat", []string{SInt, SInt}, SInt)
+	e.smt.declare("tok.empty", SInt)
+	e.smt.axiom("tok.unit", "(assert (forall ((x Int)) (! (and (= (tok.cat tok.empty x) x) (= (tok.cat x tok.empty) x)) :pattern ((tok.cat tok.empty x)) :pattern ((tok.cat x tok.empty)))))")
 }
